@@ -413,15 +413,23 @@ def trace_env():
     return _tp
 
 
+class RendersDifferently(Exception):
+    pass
+
+
 def run_trace(name, paired, start, end=(0, 5, 0, 0), tid=0x1234):
     """Feed one START/END window (or one unpaired record) of the named trace point; returns str(trace)."""
     t = trace_env()
     eid = t['inv'][name]
     mk = lambda ts, args, q: t['from_kd_buf'](t['record_args'](ts, list(args), tid, eid | q))  # noqa: E731
     evs = [mk(10, start, 1), mk(20, end, 2)] if paired else [mk(10, start, 0)]
-    out = [str(x) for x in t['TracesParser'](t['codes'], {}, {}).feed_generator(evs)]
+    objs = list(t['TracesParser'](t['codes'], {}, {}).feed_generator(evs))
+    out = [str(x) for x in objs]
     if len(out) != 1:
         raise ValueError('expected one trace, got %d' % len(out))
+    again = str(objs[0])
+    if again != out[0]:                                # the names of a decoded word do not wear off
+        raise RendersDifferently('%r the first time, %r the second time' % (out[0], again))
     return out[0]
 
 
@@ -613,6 +621,9 @@ def correspondence(rep, rng, tier):
         key, v = c
         if got.startswith('unparsable'):
             return (f'trace-{key}:unparsable', 'str(trace) does not have the expected layout: ' + got[:200])
+        if 'RendersDifferently' in got:
+            return (f'trace-{key}:renders-differently', 'the names shown for word %#x change between two renderings of the '
+                    'same trace object (a one-shot iterator in the decoded field?)' % TRACES[key][3](v))
         return TRACES[key][6](TRACES[key][3](v), got)
     run_section(rep, 'traces', tcases, line_fn=trace_line, impl_fn=impl_trace, oracle_fn=trace_oracle,
                 nontrivial_fn=ok_nonempty, kind_fn=lambda c, got: c[0],
